@@ -38,7 +38,7 @@ def main():
                        stdout=subprocess.PIPE, stderr=subprocess.STDOUT, timeout=3600)
     out = p.stdout.decode(errors='replace')
     dt = time.time() - t0
-    clauses = re.findall(r'^violation clause=(\S+)', out, re.M)
+    clauses = re.findall(r'violation clause=(\S+)', out)
     rc = re.search(r'try_patch rc=(\d+)', out)
     rc = int(rc.group(1)) if rc else None
     applies = 'PATCH DOES NOT APPLY' not in out
